@@ -24,3 +24,5 @@ func ZzC01U1L3() { zzC01(zzU1(), 3) }
 func ZzC01U1L4() { zzC01(zzU1(), 4) }
 func ZzC01U3L3() { zzC01(zzU3(), 3) }
 func ZzC01U4L3() { zzC01(zzU4(), 3) }
+func ZzC01U7L3() { zzC01(zzU7(), 3) }
+func ZzC01U8L3() { zzC01(zzU8(), 3) }
